@@ -488,6 +488,7 @@ bool vm_ffi_cop_start(VmState *vm, const NvmModule *module) {
         return false;
     }
 
+    vm->cop_was_ready = true;
     return true;
 }
 
@@ -557,6 +558,10 @@ bool vm_ffi_call_cop(VmState *vm, const NvmModule *module, uint32_t import_idx,
                      char *error_msg, size_t error_msg_size) {
     /* Lazy launch: start cop on first FFI call, or relaunch after crash */
     if (!cop_ensure(vm, module, error_msg, error_msg_size)) {
+        /* A VM whose externs have already run in a co-process may hold values
+         * that only mean something there (handles are its pointers): it must
+         * not carry on in-process. The call fails with cop_ensure's message. */
+        if (vm->cop_was_ready) return false;
         /* Could not start cop — fall back to in-process FFI */
         return vm_ffi_call(module, import_idx, args, arg_count,
                            result, heap, error_msg, error_msg_size);
